@@ -356,6 +356,13 @@ var textPools = [][]string{
 	{"か", "カ", "が", "ｶ"},
 	// code points at the edges of the UTF-8 encoding lengths and of the code space, the replacement
 	// character itself (what a decoder reports for invalid input), format characters
+	// canonical-equivalence traps: combining marks that decompose (U+0344, U+0340, U+0341, U+0343), composite
+	// Tibetan vowels (U+0F73, U+0F75, U+0F81) next to other vowel signs, singletons (OHM, ANGSTROM, KELVIN),
+	// composition exclusions (Devanagari QA, Hebrew presentation form), two marks in both orders, conjoining jamo
+	{"З", "з", "и", "у", "Зя", "З\u0344", "з\u0344", "и\u0344", "у\u0344", "\u0344", "\u0308\u0301", "a\u0340", "a\u0341", "a\u0343"},
+	{"\u0f40", "\u0f73", "\u0f71\u0f72", "\u0f75", "\u0f71\u0f74", "\u0f81", "\u0f71\u0f80", "\u0f72", "\u0f74", "\u0f80", "\u0f73\u0f72", "\u0f75\u0f74"},
+	{"\u2126", "Ω", "\u212b", "Å", "A\u030a", "\u212a", "K", "\u0958", "\u0915\u093c", "\ufb1d", "\u05d9\u05b4",
+		"a\u0323\u0302", "a\u0302\u0323", "ậ", "\u1100\u1161", "가", "\u1100\u1161\u11a8", "각"},
 	{"\uFFFD", "\u007f", "\u0080", "\u07FF", "\u0800", "\uFFFF", "\U00010000", "\U0010FFFF", "\uFEFF", "\u00AD", "\uD7FF", "\uE000"},
 }
 
@@ -366,6 +373,11 @@ var plainPools = [][]string{
 	{"漢", "字", "中", "文"},
 	{"α", "β", "γ", "ω"},
 	{"а", "б", "в", "я"},
+	// non-ignorable combining marks of different combining classes, also in non-canonical order
+	// (the collator reorders them before weighing): Tibetan vowel signs, Thai vowel + tone mark, Telugu length marks
+	{"\u0f40", "\u0f40\u0f74", "\u0f40\u0f74\u0f72", "\u0f40\u0f72\u0f74", "\u0f42\u0f74", "\u0f72", "\u0f74"},
+	{"\u0e01", "\u0e01\u0e38", "\u0e01\u0e38\u0e48", "\u0e01\u0e48\u0e38", "\u0e02\u0e48", "\u0e38", "\u0e48"},
+	{"\u0c15", "\u0c15\u0c55", "\u0c15\u0c55\u0c56", "\u0c15\u0c56\u0c55", "\u0c16\u0c56"},
 }
 
 func textAtoms(t *rapid.T, rich bool) []string {
